@@ -1394,7 +1394,8 @@ class IoSuber(SuberBase):
             val (str|None):  value str, None if no entry at keys
 
         """
-        val = self.db.getIoValFirst(sdb=self.sdb, key=self._tokey(keys))
+        val = self.db.getIoValFirst(sdb=self.sdb, key=self._tokey(keys),
+                                    sep=self.ionsep)
         return (self._des(val) if val is not None else val)
 
 
@@ -1409,7 +1410,8 @@ class IoSuber(SuberBase):
             val (str|None):  value str, None if no entry at keys
 
         """
-        val = self.db.getIoValLast(sdb=self.sdb, key=self._tokey(keys))
+        val = self.db.getIoValLast(sdb=self.sdb, key=self._tokey(keys),
+                                   sep=self.ionsep)
         return (self._des(val) if val is not None else val)
 
 
@@ -1459,7 +1461,8 @@ class IoSuber(SuberBase):
             val (str|None):  value str, None if no entry at keys
 
         """
-        val = self.db.popIoVal(sdb=self.sdb, key=self._tokey(keys))
+        val = self.db.popIoVal(sdb=self.sdb, key=self._tokey(keys),
+                               sep=self.ionsep)
         return (self._des(val) if val is not None else val)
 
 
@@ -1644,7 +1647,8 @@ class IoSetSuber(SuberBase):
             val (str|None):  value str, None if no entry at keys
 
         """
-        val = self.db.getIoValFirst(sdb=self.sdb, key=self._tokey(keys))
+        val = self.db.getIoValFirst(sdb=self.sdb, key=self._tokey(keys),
+                                    sep=self.ionsep)
         return (self._des(val) if val is not None else val)
 
 
@@ -1659,7 +1663,8 @@ class IoSetSuber(SuberBase):
             val (str|None):  value str, None if no entry at keys
 
         """
-        val = self.db.getIoValLast(sdb=self.sdb, key=self._tokey(keys))
+        val = self.db.getIoValLast(sdb=self.sdb, key=self._tokey(keys),
+                                   sep=self.ionsep)
         return (self._des(val) if val is not None else val)
 
 
@@ -1709,7 +1714,8 @@ class IoSetSuber(SuberBase):
             val (str|None):  value str, None if no entry at keys
 
         """
-        val = self.db.popIoVal(sdb=self.sdb, key=self._tokey(keys))
+        val = self.db.popIoVal(sdb=self.sdb, key=self._tokey(keys),
+                               sep=self.ionsep)
         return (self._des(val) if val is not None else val)
 
 
